@@ -10,8 +10,8 @@ R = os.environ.get("SEED_REPO", "/repo")
 ENV = dict(os.environ, VERIF_EVIDENCE_DIR=V + "/work/seed_evidence")  # evidence of runs on changed trees is not kept
 BUILD = V + "/build"
 if R != "/repo":
-    BUILD = V + "/build_seed"
-    ENV.update(VERIF_REPO=R, VERIF_BUILD=BUILD, VERIF_EVIDENCE_DIR=V + "/work/seed_evidence")
+    BUILD = V + "/build_" + os.path.basename(R.rstrip("/"))
+    ENV.update(VERIF_REPO=R, VERIF_BUILD=BUILD, VERIF_EVIDENCE_DIR=V + "/work/seed_evidence_" + os.path.basename(R.rstrip("/")))
 only = sys.argv[1:]
 rows = []
 if R != "/repo":
